@@ -2,7 +2,7 @@
 (Server with every queue policy / concurrency model, AsyncServer, ThreadPool)."""
 from __future__ import annotations
 
-from props.c07_core import Drv, Entity, Event
+from props.c07_core import Drv, Entity, Event, P, R
 
 from happysimulator.components.common import Counter, Sink
 from happysimulator.components.queue import Queue
@@ -158,7 +158,7 @@ class ServerCoDelDrv(_ServerDrv):
     covers = ("Server", "CoDelQueue")
 
     def policy(self):
-        return CoDelQueue(target_delay=0.25, interval=0.5, capacity=3)
+        return CoDelQueue(target_delay=P(0.25), interval=P(0.5), capacity=3)
 
 
 class ServerREDDrv(_ServerDrv):
